@@ -284,7 +284,7 @@ def c06(tier: str) -> int:
 # C07: supply routes
 # ---------------------------------------------------------------------------
 ROUTES = ['xml', 'gz', 'xz', 'pkg', 'coll', 'tar', 'tar.gz', 'tar.xz', 'tarpkg', 'tarpkg.gz',
-          'tarpkg.xz', 'tarcoll.xz', 'mem', 'v1.1']
+          'tarpkg.xz', 'tarcoll.xz', 'mem']
 
 
 def c07(tier: str) -> int:
@@ -296,7 +296,7 @@ def c07(tier: str) -> int:
     model(v, thorough)
     snaps = make_snapshots({'S0': [], 'S1': [['add', 'Ra1', 'xml']],
                             'S3': [['add', 'Ra1', 'xml'], ['add', 'Rx', 'xml']]})
-    names = ['Ra1', 'Rar', 'Rax', 'Rx', 'Ry', 'Ru'] + (['Ra2', 'Rr', 'Rab', 'Rxa', 'Raa', 'Rua'] if thorough else [])
+    names = ['Ra1', 'Rar', 'Rax', 'Rx', 'Ry', 'Ru', 'Rf10', 'Rf11'] + (['Ra2', 'Rr', 'Rab', 'Rxa', 'Raa', 'Rua'] if thorough else [])
     jobs = []
     for sname in ('S0', 'S1', 'S3'):
         for n in names:
@@ -304,6 +304,10 @@ def c07(tier: str) -> int:
                 # the same resource by this route, then once more by another route
                 ops = [['add', n, route], ['add', n, 'xml'], ['add', n, route]]
                 jobs.append({'mode': 'walkfrom', 'snap': snaps[sname], 'ops': ops})
+            # the same in-memory resource object supplied again after a removal
+            jobs.append({'mode': 'walkfrom', 'snap': snaps[sname],
+                         'ops': [['add', n, 'memobj'], ['remove', '*'], ['add', n, 'memobj'],
+                                 ['remove', '*'], ['add', n, 'xml']]})
         for f in ILI_T:
             for route in ('xml', 'gz', 'xz', 'pkg', 'tar.gz', 'tarpkg'):
                 jobs.append({'mode': 'walkfrom', 'snap': snaps[sname],
